@@ -15,6 +15,10 @@ func (req *MsgNewConsolidation) Validate() error {
 		return errors.New("invalid non-witness tx size")
 	}
 
+	if req.Vote == nil {
+		return errors.New("empty Vote")
+	}
+
 	if err := req.Vote.Validate(); err != nil {
 		return err
 	}
